@@ -46,6 +46,11 @@ def gen(tier, seed):
                 ["pre: -6 <= s <= 24 and -3 <= t <= 2 and -8 <= q <= 3 and (s, t, q) != (%d, -1, %d)" % (3 * n - 3, 1 - n)],
                 "a %s quantity whose dimension differs from that of order %d is rejected (dimension vector symbolic in [-6,24]x[-3,2]x[-8,3]; the magnitude is concrete: an explicit quantity is deep-copied by the setter, which realises symbolic floats)" % (which, n),
                 "s: int, t: int, q: int", timeout=150)
+    for n in ((0, 2) if tier == "quick" else range(0, 5)):
+        add("wrong_dims_env_%d" % n, "c19-wrong-dims-env", "wrong_dims_raise_env(%d, s, t, q, 'B', form)" % n,
+            ["pre: %d <= s <= %d and -2 <= t <= 0 and %d <= q <= %d and 0 <= form <= 4 and (s, t, q) != (%d, -1, %d)" % (3 * n - 5, 3 * n - 1, -n, 2 - n, 3 * n - 3, 1 - n)],
+            "per-environment constants (environment key, shared 'a,b' key, 'default', text) of a dimension other than that of order %d are rejected" % n, "s: int, t: int, q: int, form: int",
+            viol="a per-environment rate constant of the wrong dimension is accepted")
     add("right_dims", "c19-right-dims", "right_dims_kept(a, n, 'C', 'D')", ["pre: 1e-3 < a < 1e3 and 0 <= n <= 4"], "an explicit quantity of the right dimension keeps its physical value (magnitude realised by the setter's deepcopy: not exhaustive)", "a: float, n: int", timeout=20)
     for which in ("undeclared-substrate", "undeclared-product", "dup-species", "dup-reaction-label"):
         add("net_%s" % which.replace("-", "_"), "c19-network", "network_rejects(%r, pos)" % which, ["pre: 0 <= pos <= 2"], "a network refuses %s at any position" % which, "pos: int")
